@@ -193,6 +193,8 @@ class Exec:
             if not out.check(leaf.grad is not None, "task-grad-missing", f"{label}: leaf {p}"):
                 continue
             prev = before[p][0]
+            if not out.check(tuple(leaf.grad.shape) == tuple(leaf.shape), "task-grad-shape", f"{label}: leaf {p}"):
+                continue
             got = (leaf.grad - (prev if prev is not None else 0)).double().numpy()
             scale_prev = float(prev.abs().max()) if prev is not None and prev.numel() else 0.0
             out.within(float(np.abs(got - upd).max(initial=0.0)), tol + 8 * jdcheck.DERIV_TOL[self.dtype] * scale_prev,
